@@ -220,6 +220,12 @@ def _interesting_int(rng):
 def generate(sh, rng, field_types=None):
     """random native value for a shape"""
     if not isinstance(sh, Shape):
+        if isinstance(sh, dict):
+            return {k: generate(v, rng) for k, v in sh.items()}
+        if isinstance(sh, tuple) and not hasattr(sh, "_fields"):
+            return tuple(generate(v, rng) for v in sh)
+        if isinstance(sh, list):
+            return [generate(v, rng) for v in sh]
         return sh
     k = sh.kind
     if k == "int":
@@ -236,7 +242,7 @@ def generate(sh, rng, field_types=None):
     if k == "bytes":
         return bytes(rng.randint(0, 40))
     if k == "const":
-        return sh.a[0]
+        return generate(sh.a[0], rng) if isinstance(sh.a[0], (dict, list)) else sh.a[0]
     if k == "class":
         return load_class(sh.a[0])
     if k == "opaque":
